@@ -10,10 +10,7 @@ def held : Pc α → List α
 theorem held_of_not_holds (p : Pc α) (h : p.holds = false) : held p = [] := by
   cases p <;> simp_all [held, Pc.holds]
 
-/-- what the goroutine inside `Drain` still has to send of the batch it dequeued -/
-def cur : Option (List ρ) → List ρ
-  | some l => l
-  | none => []
+abbrev cur : Option (List ρ) → List ρ := curOf
 
 /-- buffer part of the invariant. `hist` lists the reserved batches with their sequence numbers in reservation
 order, `G` is the result of the fetch for a batch, `outp` what the consumer has received. -/
@@ -165,7 +162,7 @@ theorem BufInv.fetchDone (hb : BufInv G next d rs cp items inflight drainers dra
 
 theorem BufInv.drainStart (hb : BufInv G next d rs cp items inflight (drainers + 1) none oc outq outp hist) :
     BufInv G next d rs cp items inflight (drainers + 1) (some []) oc outq outp hist :=
-  ⟨hb.len, hb.seqs, hb.dle, hb.hres, hb.capb, by simpa [cur] using hb.out, hb.ocapb, hb.infl, hb.nodup, hb.itm, hb.cover,
+  ⟨hb.len, hb.seqs, hb.dle, hb.hres, hb.capb, by simpa [cur, curOf] using hb.out, hb.ocapb, hb.infl, hb.nodup, hb.itm, hb.cover,
     by intro _; omega, by intro _; omega⟩
 
 /-- the `Drain` loop dequeues the next sequence number -/
@@ -178,10 +175,10 @@ theorem BufInv.drainTake (hb : BufInv G next d (r + 1) cp items inflight drainer
   refine ⟨hb.len, hb.seqs, by have := hb.len; omega, by have := hb.hres; omega, by have := hb.capb; omega, ?_, hb.ocapb,
     ?_, hb.nodup, ?_, ?_, by intro _; exact hpos, by intro _; exact hpos⟩
   · have h0 := hb.out
-    simp only [cur, List.append_nil] at h0
+    simp only [cur, curOf, List.append_nil] at h0
     obtain ⟨hlt, hget⟩ := List.getElem?_eq_some_iff.mp hp
     rw [List.take_succ_eq_append_getElem hlt, List.map_append, List.flatten_append, ← h0]
-    simp [cur, hxp, hget]
+    simp [cur, curOf, hxp, hget]
   · intro k e hke
     obtain ⟨a, b, c⟩ := hb.infl k e hke
     have hkd : k ≠ d := by intro h; subst h; rw [hx] at c; simp at c
@@ -202,13 +199,13 @@ theorem BufInv.drainTake (hb : BufInv G next d (r + 1) cp items inflight drainer
 theorem BufInv.drainEnd (hb : BufInv G next d rs cp items inflight (n + 1) (some []) oc outq outp hist)
     (hx : items d = none) :
     BufInv G next d rs cp items inflight n none oc outq outp hist :=
-  ⟨hb.len, hb.seqs, hb.dle, hb.hres, hb.capb, by simpa [cur] using hb.out, hb.ocapb, hb.infl, hb.nodup, hb.itm, hb.cover,
+  ⟨hb.len, hb.seqs, hb.dle, hb.hres, hb.capb, by simpa [cur, curOf] using hb.out, hb.ocapb, hb.infl, hb.nodup, hb.itm, hb.cover,
     by intro h; exact absurd hx h, by intro h; exact absurd rfl h⟩
 
 theorem BufInv.send (hb : BufInv G next d rs cp items inflight drainers (some (x :: rest)) oc outq outp hist)
     (hroom : outq.length < oc) :
     BufInv G next d rs cp items inflight drainers (some rest) oc (outq ++ [x]) outp hist :=
-  ⟨hb.len, hb.seqs, hb.dle, hb.hres, hb.capb, by have := hb.out; simpa [cur, List.append_assoc] using this,
+  ⟨hb.len, hb.seqs, hb.dle, hb.hres, hb.capb, by have := hb.out; simpa [cur, curOf, List.append_assoc] using this,
     by simp; omega, hb.infl, hb.nodup, hb.itm, hb.cover, hb.live, by intro _; exact hb.dact (by simp)⟩
 
 theorem BufInv.recvQ (hb : BufInv G next d rs cp items inflight drainers drainer oc (x :: q) outp hist) :
@@ -218,7 +215,7 @@ theorem BufInv.recvQ (hb : BufInv G next d rs cp items inflight drainers drainer
 
 theorem BufInv.recvDirect (hb : BufInv G next d rs cp items inflight drainers (some (x :: rest)) oc [] outp hist) :
     BufInv G next d rs cp items inflight drainers (some rest) oc [] (outp ++ [x]) hist :=
-  ⟨hb.len, hb.seqs, hb.dle, hb.hres, hb.capb, by have := hb.out; simpa [cur, List.append_assoc] using this,
+  ⟨hb.len, hb.seqs, hb.dle, hb.hres, hb.capb, by have := hb.out; simpa [cur, curOf, List.append_assoc] using this,
     hb.ocapb, hb.infl, hb.nodup, hb.itm, hb.cover, hb.live, by intro _; exact hb.dact (by simp)⟩
 
 end buf
@@ -359,11 +356,16 @@ theorem inv_step (f : List α → List ρ) (fails : Nat → Bool) (r : Run α ρ
         simp only [inputOf, List.append_nil, hi, hp, ht0]
         simp [held]
       · simp at hs
+  | fetchErr seq =>
+    simp only [step] at hs
+    split at hs <;> try (simp at hs)
+    obtain ⟨_, rfl, rfl⟩ := hs
+    exact ⟨hist, ⟨by simpa using hb, hm, by simpa [inputOf] using hi⟩⟩
   | fetchDone seq =>
     simp only [step] at hs
     split at hs <;> try (simp at hs)
     next evs hd hl =>
-    obtain ⟨rfl, rfl⟩ := hs
+    obtain ⟨_, rfl, rfl⟩ := hs
     exact ⟨hist, ⟨by simpa using hb.fetchDone seq evs hl, hm, by simpa [inputOf] using hi⟩⟩
   | drainStart =>
     simp only [step] at hs
